@@ -30,6 +30,7 @@ func c01(c *Ctx) {
 	sHigher(c, "R4/S-HIGHER")
 	c01R5(c, "R5")
 	c01R6(c, "R6")
+	sState(c, "R6/S-STATE")
 	sBootstrapGuard(c, "R6/S-BOOTSTRAP")
 	c06R1(c, "R7/C06.R1")
 	sUpToDate(c, "R7/C06.R2", "(*Raft).requestVote", "RequestVoteRequest", "RequestVoteResponse", true, false)
